@@ -567,7 +567,7 @@ impl Router {
 
         for packet in packets.drain(0..) {
             match packet {
-                Packet::Publish(publish, properties) => {
+                Packet::Publish(mut publish, mut properties) => {
                     let span = tracing::error_span!("publish", topic = ?publish.topic, pkid = publish.pkid);
                     let _guard = span.enter();
 
@@ -600,6 +600,23 @@ impl Router {
                             force_ack = true;
                         }
                         QoS::ExactlyOnce => {
+                            // a topic alias is established / resolved when the publish is
+                            // received, not when it is released later
+                            let topic_alias = properties.as_mut().and_then(|p| p.topic_alias.take());
+                            if let Some(alias) = topic_alias {
+                                let connection = self.connections.get_mut(id).unwrap();
+                                if let Err(e) =
+                                    validate_and_set_topic_alias(&mut publish, connection, alias)
+                                {
+                                    error!(reason = ?e, "Invalid topic alias");
+                                    disconnect = true;
+                                    if let RouterError::Disconnect(code) = e {
+                                        disconnect_reason = Some(code)
+                                    }
+                                    break;
+                                }
+                            }
+
                             let pubrec = PubRec {
                                 pkid,
                                 reason: PubRecReason::Success,
